@@ -103,7 +103,8 @@ TIME_DEPENDENT = ('tdtebd', 'tdexpmpo', 'tdtdvp2')
 def gen_config(seed, tier='quick', family=None):
     wl = random.Random(core.sub_seed(seed, 'config'))
     fam = family or wl.choice(['dmrg2', 'dmrg2', 'dmrg1', 'tebd', 'tebd', 'qrtebd', 'tdvp2', 'tdvp1', 'expmpo',
-                               'idmrg', 'tdcorr', 'tdcorr_bk', 'spectral', 'vumps', 'tdtebd', 'tdexpmpo', 'tdtdvp2'])
+                               'idmrg', 'idmrg', 'tdcorr', 'tdcorr_bk', 'spectral', 'vumps', 'tdtebd', 'tdexpmpo',
+                               'tdtdvp2'])  # infinite DMRG twice: cheap runs, and the richest resume data (environments)
     L = wl.choice([4, 6]) if tier == 'quick' else wl.choice([4, 6, 6, 8])
     model = wl.choice(['TFIChain', 'XXZChain'])
     conserve = wl.choice([None, 'best'])
